@@ -198,6 +198,15 @@ def r3_ignore_na(ctx):
             if is_drop and post_check and (fc_helper or (isinstance(st, ast.Assign) and "failure" in txt(st.targets[0]))
                                            or any(isinstance(p, ast.For) for p in _parents(c))):
                 continue  # null removal inside failure-case formatting (after the check ran), not before the check
+            if is_drop and "key" in f.params and not post_check:
+                # preprocessing for one column: nulls are dropped from the selected column, never row-wise from the whole
+                # table (a null in *another* column would hide this row from the check)
+                recv = c.func.value if isinstance(c.func, ast.Attribute) else None
+                whole = isinstance(recv, ast.Name) and recv.id in f.params and kw(c, "subset") is None
+                ctx.ob("R3", f, f"`{txt(c)[:50]}` drops nulls of the checked column only", not whole,
+                       "column-wise" if not whole else
+                       f"`{txt(c)}` removes every row that has a null in *any* column before the column `key` is selected: a violating value in a row whose "
+                       "other column is null is never shown to the check (Check.gt(0) accepts a == -5 when b is NaN in that row)", f.loc(c))
             if is_drop:
                 cfg = cfg or cfg_of(f.node)
                 pc = path_condition(cfg, cfg.node_of(st).id, keep=keep)
